@@ -204,6 +204,26 @@ def run(R):
             ok = False
             R.viol("C10.flush", "file-name", "flush and restore do not use the same file name constant", fl, fl.lines[0])
         R.inst("C10.flush", "K7 table agreement", "flush writes {received_payment_count, timestamp} to the file restore reads", 2, ok)
+        # same directory on both sides: the config field flush joins the file name onto is the one with_config hands to restore
+        import argmodel as A
+        prep(fl)
+        jf = [b for b in fl.blocks if b["term"]["k"] == "call" and not b["cleanup"] and (b["term"]["ncallee"] or "").endswith("::join")]
+        wdir = set()
+        for b in jf:
+            fs, _ = A._fields_behind(fl, op_local(b["term"]["args"][0]))
+            wdir |= {x.split(".")[-1] for x in fs}
+        wcb = R.body("C10.flush.dir", WITHCFG)
+        rdir = set()
+        if wcb is not None:
+            prep(wcb)
+            for b in wcb.blocks:
+                if b["term"]["k"] == "call" and callee_matches(b["term"], [NRS + "::restore_quoting_metrics"]):
+                    fs, _ = A._fields_behind(wcb, op_local(b["term"]["args"][0]))
+                    rdir |= {x.split(".")[-1] for x in fs}
+        okd = bool(wdir) and wdir == rdir
+        if not okd:
+            R.viol("C10.flush.dir", "directory", "the payment counter is flushed under config.%s but restored from config.%s: it does not survive a restart" % (sorted(wdir), sorted(rdir)), fl, fl.lines[0])
+        R.inst("C10.flush.dir", "K7 table agreement", "flush and restore use the same configured directory", len(jf), okd, {"flush_dir_field": sorted(wdir), "restore_dir_field": sorted(rdir)})
     wc = R.body("C10.restore", WITHCFG)
     if wc is not None:
         prep(wc)
